@@ -765,6 +765,62 @@ PIN_COND_LINES = ["main:begin", "main:mid", "init pd:begin", "init pd:end", "4",
 PIN_COND_EVENTS = [("miss", "pd"), ("hit", "pd")]
 
 
+# ----------------------------------------------------------------------------- exported classes (third session, area a8-1)
+# A class exported by a module keeps using the MODULE's variables when an importer constructs it: names that only the
+# constructor mentions, names that only a method mentions, and the class's own name.  Two importers share the module.
+
+def exported_class_cases():
+    """Yields (case id, files, expected lines, expected events)."""
+    kennel = ('print "init kennel:begin"\n'
+              'dogs: [int...] = [0]\n'
+              'DOGGOS = 0\n'
+              'export class Dog {\n'
+              '  id: int\n'
+              '  constructor(self) {\n'
+              '    self.id = dogs[0] + DOGGOS\n'
+              '    dogs[0] += 1\n'
+              '  }\n'
+              '  fn tag(self) -> str {\n'
+              '    return "dog #" + self.id\n'
+              '  }\n'
+              '  fn pup(self) -> Self {\n'
+              '    return Dog()\n'
+              '  }\n'
+              '}\n'
+              'export registered: fn() -> int = fn() -> int {\n'
+              '  return dogs[0]\n'
+              '}\n'
+              'print "init kennel:end"\n')
+    stats = ('print "init stats:begin"\n'
+             'import kennel\n'
+             'export seen: fn() -> int = fn() -> int {\n'
+             '  return kennel.registered()\n'
+             '}\n'
+             'export adopt: fn() -> str = fn() -> str {\n'
+             '  d = kennel.Dog()\n'
+             '  return d.tag()\n'
+             '}\n'
+             'print "init stats:end"\n')
+    for form, ctor in (("plain", "kennel.Dog()"), ("named", "Dog()")):
+        for shadow in (False, True):
+            main = ['print "main:begin"', 'import stats', 'import kennel' if form == "plain" else 'import Dog from kennel\nimport kennel']
+            if shadow:
+                main += ['DOGGOS = 100', 'dogs: [int...] = [50]']
+            main += ['a = %s' % ctor, 'print a.tag()', 'b = %s' % ctor, 'print b.tag()', 'print "seen " + stats.seen()',
+                     'print stats.adopt()', 'c = a.pup()', 'print c.tag()', 'print "registered " + kennel.registered()']
+            if shadow:
+                main += ['print "mine " + DOGGOS + " " + dogs[0]']
+            main += ['print "main:end"']
+            lines = ["main:begin", "init stats:begin", "init kennel:begin", "init kennel:end", "init stats:end",
+                     "dog #0", "dog #1", "seen 2", "dog #2", "dog #3", "registered 4"]
+            if shadow:
+                lines.append("mine 100 50")
+            lines.append("main:end")
+            events = [("miss", "stats"), ("miss", "kennel"), ("hit", "kennel")] + ([("hit", "kennel")] if form == "named" else [])
+            yield ("cat:exported_class:%s%s" % (form, ":importer_shadows_module_names" if shadow else ""),
+                   {"main.ms": "\n".join(main) + "\n", "kennel.ms": kennel, "stats.ms": stats}, lines, events)
+
+
 # ----------------------------------------------------------------------------- comparison
 
 _M = re.compile(r'^(.*)#__module__$')
